@@ -171,6 +171,20 @@ def run_task(task):
                     except PathEnd:
                         pass
 
+        if prefix is None:
+            # direct recursion: its depth grows with the input (each level costs an interpreter stack frame), so the
+            # function can raise RecursionError however correct its result is -- unless the contract bounds the depth
+            import ast as _ast
+            short = target.rsplit(".", 1)[-1]
+            rec_calls = [n for n in _ast.walk(fn.node) if isinstance(n, _ast.Call) and (
+                (isinstance(n.func, _ast.Attribute) and n.func.attr == short and isinstance(n.func.value, _ast.Name) and n.func.value.id == "self")
+                or (isinstance(n.func, _ast.Name) and n.func.id == short))]
+            if rec_calls and not getattr(contract.holder, "recursion_bounded", None):
+                from .engine import Obligation
+                ctx.obligations.append(Obligation("%s/termination:recursion-depth-independent-of-input" % target, "termination", "failed", 0.0,
+                                                  "syntactic", "calls itself at line %d: recursion depth is not bounded by the contract, "
+                                                  "a long enough input overflows the interpreter stack (RecursionError)" % rec_calls[0].lineno,
+                                                  None, 0, safety_tags))
         try:
             if probe_depth is not None:
                 ctx.explore(thunk, cut_depth=probe_depth)
@@ -183,6 +197,13 @@ def run_task(task):
                 res["paths"] = ctx.explore(thunk, initial=[prefix] if prefix is not None else None)
         except OutOfReach as e:
             res["out_of_reach"].append(str(e))
+        for site, (nfalse, nok) in sorted(ctx.modular_sites.items()):
+            if nfalse and not nok:
+                msg = "postcondition %s of %s was false outright on every path that reached the call at line %d (does the contract declare result()?)" % (site[2], site[0], site[1])
+                if prefix is None and probe_depth is None:
+                    res["out_of_reach"].append(msg)
+                else:
+                    ctx.notes.append(msg)
         res["completed_paths"] = stats["completed"]
         res["obligations"] = [o.as_dict() for o in ctx.obligations]
         res["inlined"] = sorted(ctx.inlined)
